@@ -157,6 +157,7 @@ impl Monitors {
                         Action::ArmLaunchFail { .. } => 10,
                         Action::AgeWorker { .. } => 17,
                         Action::ArmSlowStop { .. } => 18,
+                        Action::Partition { .. } => 19,
                         Action::Req { .. } => 11,
                         Action::AnswerFlush => 12,
                         Action::AnswerPrune => 13,
